@@ -145,17 +145,32 @@ func (p *Packer) Pack(src string, w io.Writer) (*Meta, error) {
 	// Track the metadata details as we go.
 	meta := &Meta{}
 
+	// A trailing separator would make Lstat follow a link, hiding it from the
+	// check below.
+	if src != "" {
+		src = filepath.Clean(src)
+	}
+
 	info, err := os.Lstat(src)
 	if err != nil {
 		return nil, err
 	}
 
-	// Check if the root (src) is a symlink
+	// Check if the root (src) is a symlink. It is resolved completely (the
+	// target may be relative to the link's own directory, or another link),
+	// not just read once and interpreted relative to the working directory.
 	if info.Mode()&os.ModeSymlink != 0 {
-		src, err = os.Readlink(src)
+		resolved, err := filepath.EvalSymlinks(src)
 		if err != nil {
-			return nil, err
+			// Historical behavior, kept for callers relying on it: a link
+			// that does not resolve on its own has its target interpreted
+			// relative to the working directory.
+			resolved, err = os.Readlink(src)
+			if err != nil {
+				return nil, err
+			}
 		}
+		src = resolved
 	}
 
 	// Load the ignore rule configuration, which will use
